@@ -22,7 +22,7 @@ ASSUMPTIONS = ['exact-arithmetic model; the generated values make every float op
 
 def impl(case):
     with C.scratch_dir() as d:
-        m = D.load(D.write_dataset(d, case['spec']))
+        m = D.load(D.write_dataset(d, case['spec']), reopen=bool(case.get('reopen')))
         try:
             if case.get('only_depths'):
                 dep = m.get_depths()
@@ -102,6 +102,10 @@ def judge(case, impl_res, ans):
     ok = impl_res['ok']
     res = ans['ok']['res']
     spec = case['spec']
+    if 'wmi' in ok:
+        bad = DC.check_wmi(spec, ok['wmi'])
+        if bad:
+            return 'SPEC: ' + bad
     f = case['factor']
     sr = spec['sample_rate']
     curated = spec.get('spike_clusters') is not None and spec['spike_clusters'] != spec['spike_templates']
@@ -162,6 +166,8 @@ def nontrivial(case):
 
 
 def tally(rep, case, impl_res, ans):
+    if case.get('reopen'):
+        rep.count('second_model_on_the_directory')
     spec = case['spec']
     rep.count('curated:%s' % (spec.get('spike_clusters') is not None))
     wh = spec.get('whitening')
@@ -189,7 +195,7 @@ def gen(tier, rng):
     for i in range(250 if q else 5000):
         empty = ['none', 'first', 'middle', 'last'][i % 4] if i < 60 else 'random'
         spec = DC.dense_spec(rng, empty=empty, feats=(i % 5 != 4), probes=(i % 3 == 0))
-        yield dict(p=PID, spec=spec, factor=[1., 2.5, 1.][i % 3])
+        yield dict(p=PID, spec=spec, factor=[1., 2.5, 1.][i % 3], reopen=(i % 4 == 1))
     # get_depths works in batches of 50000 spikes: one more than a full batch, and exactly one batch
     for ns in ((50001,) if q else (50001, 50000, 100001)):
         spec = DC.dense_spec(rng, nt=3, nc=3, ns=ns, nsw=2, curated=False, whiten='none', feats=True, empty='none')
